@@ -178,6 +178,9 @@ func (x Expr) GetNodes(n gen.Node) (results []gen.Node) {
 					}
 				}
 			} else {
+				// The marker is shared by the siblings of prev, the next one
+				// has to be expanded as well.
+				stack[len(stack)-1] = di &^ descentFlag
 				if fi == index(len(x))-1 { // last one
 					if top {
 						results = append(results, prev)
@@ -480,6 +483,9 @@ func (x Expr) FirstNode(n gen.Node) (result gen.Node) {
 					}
 				}
 			} else {
+				// The marker is shared by the siblings of prev, the next one
+				// has to be expanded as well.
+				stack[len(stack)-1] = di &^ descentFlag
 				stack = append(stack, prev)
 			}
 		case Root:
